@@ -188,6 +188,8 @@ def transports(ck):
     n = 900 if ck.thorough else 70
     pool = [T.TCP, T.TCP, T.UDP, T.WSRTSP, T.WSP, T.HTTPFLV, T.WSFLV, T.MCAST]
     cases = [T.gen_case(rng, True, pool, max_pkts=22 if ck.thorough else 14, replace_p=0.2) for _ in range(n)]
+    # several multicast players of one stream, joining and leaving in every order
+    cases += [T.gen_mcast_case(rng, True, max_pkts=18 if ck.thorough else 12) for _ in range(160 if ck.thorough else 12)]
     obs = ck.stream("transports", cases, None, "C01_transports", "C01_wire_ok", compare=False,
                     nontrivial=lambda c: len(c[2]) >= 2 or c[3][0][0] == 0,
                     sig=lambda c, e, o: "transport-delivery", timeout=1500)
